@@ -245,3 +245,142 @@ def gen_schedule(seed: int, scenario, j: int) -> Dict[str, Any]:
     if prof == "starved":
         spec["starved"] = rng.choice(scenario["sims"])["sid"]
     return spec
+
+
+# ---------------------------------------------------------------------------------
+# C06: connection multigraphs
+def gen_graph(seed: int, tier: str = "quick") -> Dict[str, Any]:
+    rng = random.Random(sub_seed(seed, "graph"))
+    feats = {"groups": rng.random() < 0.75, "siblings": rng.random() < 0.6}
+    groups = gen_groups(rng, feats)
+    n = rng.choice([1, 2, 2, 3, 3, 3, 4, 4, 5])
+    sims = []
+    for i in range(n):
+        sims.append({"sid": f"S{i}", "type": "hybrid", "group": rng.randrange(len(groups)),
+                     "n_ent": 2, "meta_style": rng.choice([0, 0, 1, 2]), "transport": "gated",
+                     "beh": {"bseed": rng.randrange(1 << 30), "p_self": 0.0, "p_out": 0.5,
+                             "loop_len": 1}})
+    paths = group_paths({"groups": groups})
+    conns: List[Dict[str, Any]] = []
+    used = set()
+    # bias: build 0-3 cycles explicitly, then sprinkle extra edges
+    edges = []
+    for _ in range(rng.choice([0, 1, 1, 1, 2, 2, 3])):
+        r = rng.choice([1, 2, 2, 3, 3, 4])
+        nodes = rng.sample(range(n), min(r, n))
+        r = len(nodes)
+        closer = rng.randrange(r) if rng.random() < 0.85 else -1   # this hop tries to resolve
+        for i in range(r):
+            edges.append((nodes[i], nodes[(i + 1) % r], "resolve" if i == closer else "plainish"))
+    for _ in range(rng.choice([0, 0, 1, 1, 2])):
+        edges.append((rng.randrange(n), rng.randrange(n), "any"))
+    rng.shuffle(edges)
+    for (a, b, how) in edges[:9]:
+        sa, sb = sims[a], sims[b]
+        se, de = rng.randrange(2), rng.randrange(2)
+        if a == b and se == de:
+            de = 1 - se
+        ua = rng.choice(["p_out", "e_out"])
+        va = rng.choice(["m_in", "t_in"])
+        if (a, se, b, de, va) in used:
+            continue
+        cl = common_len(paths[sa["group"]], paths[sb["group"]])
+        if how == "resolve":
+            kind = rng.choice(["shift", "shift", "weak", "weak", "weak"])
+        elif how == "plainish":
+            kind = rng.choice(["plain", "plain", "plain", "plain", "plain", "async", "weak"])
+        else:
+            kind = rng.choice(["plain", "plain", "plain", "shift", "weak", "weak", "async", "shift+async"])
+        shift, weak, asy = 0, False, False
+        if "shift" in kind:
+            shift = rng.choice([1, 1, 2])
+        if kind == "weak":
+            if cl >= 2 or rng.random() < 0.1:
+                weak = True            # (10%: an illegal weak connection, must be rejected)
+            elif how == "resolve":
+                shift = 1
+        if "async" in kind:
+            asy = True
+        c = {"src": a, "se": se, "dst": b, "de": de, "pairs": [[ua, va]], "shift": shift, "weak": weak}
+        if asy:
+            c["async"] = True
+            if rng.random() < 0.3:
+                c["pairs"] = []
+        if (shift or weak) and (va == "m_in" or rng.random() < 0.5) and c["pairs"]:
+            c["init"] = {ua: f"init{len(conns)}"}
+        used.add((a, se, b, de, va))
+        conns.append(c)
+    cfg = {"cache": rng.random() < 0.5, "lazy": rng.random() < 0.5, "debug": False, "mli": 6,
+           "start_seed": None, "connect_seed": None, "order_seed": None}
+    return {"groups": groups, "sims": sims, "conns": conns, "until": rng.choice([1, 2]), "config": cfg}
+
+
+# ---------------------------------------------------------------------------------
+# C11: scenarios with illegal connect() calls and sibling-group placements
+def gen_config(seed: int, tier: str = "quick") -> Dict[str, Any]:
+    rng = random.Random(sub_seed(seed, "config"))
+    force = {"groups": rng.random() < 0.8, "siblings": True, "weak": True, "shift": True}
+    sc = gen_core(seed, tier, force=force, transport_mix="local")
+    sims = sc["sims"]
+    n = len(sims)
+    paths = group_paths(sc)
+    for s in sims:
+        if rng.random() < 0.2:
+            s["any_inputs"] = True
+            s["meta_style"] = s.get("meta_style", 0) if (s["type"] == "hybrid" and s.get("meta_style", 0) in (0, 1)) else 0
+    illegal = []
+    for _ in range(rng.choice([1, 1, 2, 3])):
+        a, b = rng.randrange(n), rng.randrange(n)
+        if a == b and n > 1:
+            continue
+        sa, sb = sims[a], sims[b]
+        se, de = rng.randrange(sa["n_ent"]), rng.randrange(sb["n_ent"])
+        if a == b:
+            if sa["n_ent"] < 2:
+                continue
+            de = 1 - se
+        ua = rng.choice(OUTS[sa["type"]])
+        va = rng.choice(INS[sb["type"]])
+        kind = rng.choice(["src_attr", "dst_attr", "no_init", "weak_root", "multi", "weak_sibling"])
+        c = {"src": a, "se": se, "dst": b, "de": de, "pairs": [[ua, va]], "shift": 0, "weak": False,
+             "illegal_kind": kind}
+        cl = common_len(paths[sa["group"]], paths[sb["group"]])
+        if kind == "src_attr":
+            c["pairs"] = [["zz_out", va]]
+        elif kind == "dst_attr":
+            c["pairs"] = [[ua, "zz_in"]]
+        elif kind == "no_init":
+            c["shift"] = rng.choice([0, 1, 2])
+            c["weak"] = (cl >= 2 and rng.random() < 0.5) or c["shift"] == 0
+            # no initial data although the destination may be a non-trigger input
+        elif kind in ("weak_root", "weak_sibling"):
+            c["weak"] = True
+            c["init"] = {ua: "initW"}
+        elif kind == "multi":
+            c["pairs"] = [[ua, va], ["zz_out", va if len(INS[sb["type"]]) < 2 else [x for x in INS[sb["type"]] if x != va][0]],
+                          [ua, "zz_in"]]
+            c["shift"] = rng.choice([0, 1])
+            if c["shift"]:
+                c["init"] = {ua: "initM"}
+        illegal.append(c)
+    # insert at random positions
+    for c in illegal:
+        sc["conns"].insert(rng.randrange(len(sc["conns"]) + 1), c)
+    # remove accidental carve-out 1 duplicates
+    seen = set()
+    conns = []
+    for c in sc["conns"]:
+        pairs = []
+        for p in c["pairs"]:
+            k = (c["src"], c.get("se", 0), c["dst"], c.get("de", 0), p[1])
+            if k in seen:
+                continue
+            seen.add(k)
+            pairs.append(p)
+        if pairs or c.get("async"):
+            c["pairs"] = pairs
+            conns.append(c)
+    sc["conns"] = conns
+    sc["config"]["debug"] = False
+    repair_cycles(sc, rng)
+    return sc
